@@ -20,7 +20,9 @@ CANARY_ANS = '7.3141'
 CANARY_SAMPLE = 3.7281904
 CANARY_VAR = 'secretvar'
 
-CREDITS = [0, 0.1, 1 / 3., 0.5, 0.7, 0.99, 1, 1]
+import numpy as _np
+# (credits close to 0 and 1, and numpy-typed credits, are numbers in [0, 1] like any other)
+CREDITS = [0, 0.1, 1 / 3., 0.5, 0.7, 0.99, 1, 1, 1e-6, 0.99996, _np.float64(0.5), _np.float64(1.0), _np.float64(0.0)]
 MSGS = ['', '', 'm', 'two\nlines', 'well done', 'use {braces} and {0}', '100% "quoted" \'text\' <b>x</b>', u'h\u00e9llo \u2713']
 
 
@@ -48,7 +50,8 @@ class Factory(object):
         mode = rng.choice(['plain', 'plain', 'accept_any', 'pattern'])
         if mode == 'accept_any':
             cfg.update({'accept_any': True, 'min_length': rng.choice([0, 3]), 'explain_minimums': rng.choice(['err', 'msg', None])})
-            alts = []
+            # usually no answers at all; sometimes an explicit (empty) answer that carries the credit and message to award
+            alts = [] if rng.random() < 0.6 else [_alt(rng, '')]
         elif mode == 'pattern':
             cfg.update({'validation_pattern': r'[\w \-é]+', 'explain_validation': rng.choice(['err', 'msg', None])})
 
